@@ -9,6 +9,8 @@ pub mod c01;
 pub mod c02;
 pub mod c03;
 pub mod c04;
+pub mod c05;
+pub mod cmdtable;
 pub mod c15;
 pub mod c16;
 pub mod c20;
@@ -24,6 +26,7 @@ pub fn parent_main(prop: &str, tier: &str) -> i32 {
         "C04" => c04::parent(tier),
         "C20" => c20::parent(tier),
         "C15" => c15::parent(tier),
+        "C05" => c05::parent(tier),
         "C16" => c16::parent(tier),
         _ => {
             eprintln!("unknown property {}", prop);
@@ -52,6 +55,10 @@ pub fn worker_main(prop: &str, tier: &str, _slot: usize) {
             pool::worker_loop(|t, io| h(tier, t, io))
         }
         "C20" => pool::worker_loop(|t, io| c20::handle(tier, t, io)),
+        "C05" => {
+            let mut h = c05::handle_factory();
+            pool::worker_loop(|t, io| h(tier, t, io))
+        }
         "C15" => {
             let mut h = c15::handle_factory();
             pool::worker_loop(|t, io| h(tier, t, io))
